@@ -95,7 +95,13 @@ pub fn parse_response<B>(reader: BaseStream, request: &PreparedRequest<B>, url: 
     } else {
         BodyReader::new(&headers, reader)?
     };
-    let compressed_reader = CompressedReader::new(&headers, request, body_reader)?;
+    // There is nothing to decode either: a 204 or 304 that announces `Content-Encoding: gzip` still
+    // has an empty body, not a gzip stream that was cut short.
+    let compressed_reader = if bodyless {
+        CompressedReader::Plain(body_reader)
+    } else {
+        CompressedReader::new(&headers, request, body_reader)?
+    };
     let response_reader = ResponseReader::new(&headers, request, compressed_reader);
 
     // Remove HOP-BY-HOP headers
